@@ -261,7 +261,10 @@ def gen_workload(tape):
     # how the cache directory is found: preset module attribute, or resolved by
     # typhon itself from the environment on the first access of the process
     w["datapath_via"] = tape.pick(["preset", "preset", "TYPHON_DATA_PATH",
-                                   "XDG_CACHE_HOME"], "dpv")
+                                   "XDG_CACHE_HOME", "both"], "dpv")
+    # between two requests the resolved directory is forgotten - as in a child
+    # process that inherits the environment and resolves it again
+    w["resolve_again"] = tape.flag("resolve_again", 1, 3)
     # two caller threads on a completely warm cache: no download may happen
     w["two_callers"] = w["config"] == "fast" and tape.flag("two_callers", 1, 5)
     w["line_stride"] = 5 + tape.choice(30, "linestride") if w["two_callers"] else 0
@@ -355,10 +358,14 @@ def run_one(tape, only=None):
     tmod, SRTM30 = _T["tmod"], _T["SRTM30"]
     root = fresh_dir(scratch_root(), "c20")
     env = {}
-    if w["datapath_via"] == "TYPHON_DATA_PATH":
+    if w["datapath_via"] in ("TYPHON_DATA_PATH", "both"):
         env["TYPHON_DATA_PATH"] = os.path.join(root, "data")
         cache = os.path.join(root, "data", "topography")
         os.makedirs(env["TYPHON_DATA_PATH"])
+        if w["datapath_via"] == "both":
+            # documented: XDG_CACHE_HOME is consulted only if TYPHON_DATA_PATH
+            # is not set
+            env["XDG_CACHE_HOME"] = os.path.join(root, "xdg-not-used")
     elif w["datapath_via"] == "XDG_CACHE_HOME":
         env["XDG_CACHE_HOME"] = cache = os.path.join(root, "xdg")
     else:
@@ -445,6 +452,9 @@ def run_one(tape, only=None):
                     o = w["ops"][oi]
                     if w["two_callers"]:
                         sim.yield_(f"op{oi}")
+                    elif w["resolve_again"] and oi and w["datapath_via"] != "preset":
+                        tmod._data_path = None
+                        probe("cache_directory_resolved_again")
                     if o.get("external_fill") and "rect" in o and not w["two_callers"]:
                         os.makedirs(cache, exist_ok=True)
                         added = 0
